@@ -76,6 +76,24 @@ def _fidelity_check():
         raise HarnessError("prange outliner changed sinkhorn_transport_images under the trivial schedule")
 
 
+def _amplified_tolerance(case, est, tol):
+    """Estimators that divide a projection by sqrt(singular value) (HeuristicLinearAlgebra, ApproximateWasserstein,
+    CountFeatureCompression) amplify the last-bit differences that BLAS produces for different batch shapes by
+    1/sqrt(s_min); on (nearly) rank-deficient training data that is 1e8.  The tolerance follows the amplification
+    (1e-12 relative to the un-divided quantity), so that rounding is never reported as coupling."""
+    s = None
+    if isinstance(case, A.WassersteinCase) and case.which in ("W-heuristic", "ApproxW"):
+        s = np.sqrt(np.abs(np.asarray(getattr(est, "singular_values_", [1.0]), dtype=np.float64)))
+    elif isinstance(case, A.CFCCase):
+        s = np.abs(np.asarray(getattr(est, "component_scaling_", [1.0]), dtype=np.float64))
+    if s is None or s.size == 0:
+        return tol
+    smin = float(np.min(s))
+    if smin <= 0:
+        return tol
+    return max(tol, 1e-12 / smin)
+
+
 def _tolerance(case):
     if isinstance(case, A.WassersteinCase) and case.which in ("W-sinkhorn", "Sinkhorn"):
         # the batched Sinkhorn iteration shares one stopping test (aggregate error <= 1e-9) across the rows of a
@@ -132,6 +150,9 @@ def run(tape, ctx):
         except Exception:
             pass
     desc["sinkhorn_kernel_underflow"] = bool(qual)
+
+    tol = _amplified_tolerance(case, est, tol)
+    desc["row_tolerance"] = tol
 
     n = len(case.pool)
     memo = {}          # item -> ("row", row, where) | ("exc", ExcName, where)
